@@ -37,7 +37,7 @@ def run_impl(case):
         f = fsup.read_text(BF, x, case.get("io"))
         cap = len(x) + 5
         elems = [fsup.enc_belem(e, classes, binary) for e in fsup.capped(f.data, cap)]
-        w = fsup.write_text(f, case.get("io"), binary)
+        w = fsup.write_text(f, case.get("io"), binary, (f.data,) if case.get("query_in_write") else ())
         return {"elems": elems, "written": list(w) if binary else codec.enc_str(w)}
     except Exception as e:
         return codec.enc_exc(e)
@@ -170,6 +170,7 @@ def random_text_case(rng):
         if io:
             case["io"] = io
     case["x"] = codec.enc_str(x)
+    case["query_in_write"] = rng.random() < 0.25
     return case
 
 
